@@ -22,9 +22,11 @@ LEVEL_NOTE = "Trusted: vf/kernel.py process emulation and event ordering; model.
 
 
 def strategy(tier):
-    return graph.graph_case(max_tasks=8 if tier == "quick" else 12, outcomes="some", max_bad=2,
+    from hypothesis import strategies as st
+    general = graph.graph_case(max_tasks=8 if tier == "quick" else 12, outcomes="some", max_bad=2,
                             tape_max=50, tape_hi=31, p_par=0.875, p_seed_den=5,
                             jobs=(None, 1, 2, 2, 3, 3, 3, 4, 5))
+    return st.one_of(general, general, graph.layered_case(flags=("again",), p_fail_den=6))
 
 
 def examples(tier):
